@@ -42,5 +42,10 @@ def obligations(tier):
         for ai in (True, False):
             for nxt in ("insert", "remove"):
                 obs.append({"id": f"oserror/{op}/{'ai' if ai else 'noai'}/then-{nxt}/mode-w+", "harness": "h_crash", "params": {"op": op, "ai": ai, "mode": "oserror", "next": nxt, "access_mode": "w+"}, "budget_s": 120})
+    if tier == "thorough":
+        for op in c12.OPS:
+            for ai in (True, False):
+                for nxt in ("insert", "remove"):
+                    obs.append({"id": f"oserror/{op}/{'ai' if ai else 'noai'}/then-{nxt}/six-rows", "harness": "h_crash", "params": {"op": op, "ai": ai, "mode": "oserror", "next": nxt, "big": True}, "budget_s": 300})
     obs.append({"id": "twin/oserror", "harness": "h_crash", "params": {"op": "update", "ai": True, "mode": "oserror", "twin": True}, "budget_s": 60})
     return obs
